@@ -18,6 +18,10 @@ CHECKS = {
    text='manifest side (DashTiming, generateSegmentTimeline) and media side (DashTiming rebuilt from the URL values, LiveMedia.calculate_media_segment_index) executed symbolically on the same clock: now = base instant + symbolic microsecond window, symbolic depth, leeway, requested $Number$ / timeline entry; DASH availability window oracle from manifest values only',
    note='layout catalogue (fixtures + synthetic), base instants 65 s .. 54 years, clock window two loops of the reference, explicit availabilityStartTime (C08 resolves symbolic starts, C07 the URL transfer); floats as exact rationals with error bounds; HTTP routing outside',
    ref='DESIGN.md 5 C01'),
+ 'C02': dict(
+   text='the whole real MediaRequestBase.generate_media_segment executed on fixture media under a symbolic clock and symbolic $Number$ / timeline entry: real parser on the stored bytes, tfdt/mfhd rewritten with symbolic terms, real encoder through the struct model, independent box walker reads the served fields back as terms; equalities with the advertised values are SMT validity queries',
+   note='fixture media only (bbb, tears); Flask request/response, CORS helper and database rows are stand-ins; clock windows at base instants incl. the 2^32-tick crossing of tfdt; known finding: drift of the last segment of a loop (known_findings.json)',
+   ref='DESIGN.md 5 C02'),
  'C08': dict(
    text='DashTiming executed on a fully symbolic calendar instant (year..microsecond are solver variables, calendar arithmetic relational), symbolic depth and explicit start; coherence obligations as SMT validity queries on every path; monotonicity by a one-day-window induction step',
    note='now in 1971..2200 UTC; minimumUpdatePeriod from a concrete catalogue (it divides a symbolic value); reference (segment_duration, timescale) from the layout catalogue; float total_seconds() modelled as exact rational with error bound',
